@@ -2303,3 +2303,25 @@ mod tests {
                 clone_senders, .. }) if clone_senders.is_empty()));
     }
 }
+
+//------------ Verification hooks: ReconfUnits (off by default) --------------
+
+/// Add-only read access for the external verification harness (feature
+/// `verif-hooks`, area ReconfUnits). Nothing here has behaviour of its own.
+#[cfg(feature = "verif-hooks")]
+pub mod verif_hooks_reconfunits {
+    use super::*;
+
+    /// Number of updates sitting in the queues of this gate's queue
+    /// subscribers (sent by `update_data`, not yet taken by `Link::query`).
+    pub fn gate_queue_backlog(gate: &Gate) -> usize {
+        gate.updates
+            .guard()
+            .iter()
+            .map(|(_, item)| match &item.queue {
+                Some(tx) => tx.max_capacity() - tx.capacity(),
+                None => 0,
+            })
+            .sum()
+    }
+}
